@@ -3,7 +3,7 @@ import LzmaVerif.Model.XzInt
 import LzmaVerif.Model.Lzma2
 import LzmaVerif.Model.Filters
 /-
-Model of the XZ container: `src/xz/reader.rs` (StreamHeader, BlockHeader, Index, StreamFooter,
+Model of the XZ container: `src/xz/reader.rs` (StreamHeader, BlockHeader, Index, StreamFooter, finish_block_record,
 XZReader::read / prepare_next_block / consume_padding / verify_block_checksum /
 try_start_next_stream / parse_index_and_footer) and `src/xz/writer.rs` (write_stream_header,
 write_block_header, finish_current_block, write_index, write_stream_footer).
@@ -137,6 +137,10 @@ def parseFilters : Nat → List Nat → Except Err (List Filter × List Nat)
 structure BlockHeader where
   filters : List Filter
   size : Nat
+  /-- the optional Compressed Size / Uncompressed Size fields (`BlockHeader::compressed_size`,
+      `BlockHeader::uncompressed_size`); compared with the real sizes once the block has been decoded -/
+  compSize : Option Nat := none
+  uncompSize : Option Nat := none
 deriving Repr
 
 /-- `BlockHeader::parse`; `none` = index indicator (0x00) -/
@@ -151,17 +155,17 @@ def parseBlockHeader (inp : List Nat) : Except Err (Option BlockHeader × List N
     let flags := hd.getD 0 0
     let nf := flags % 4 + 1
     let data := hd.drop 1
-    -- optional sizes (parsed, not used)
-    let data ← (if flags / 64 % 2 = 1 then do
+    -- optional sizes (checked against the real sizes by `decodeBlockBody`, see `finish_block_record`)
+    let (cs, data) ← (if flags / 64 % 2 = 1 then do
         if data.length < 8 then throw .invalidData       -- `offset + 8 > header_data.len()`
-        let (_, d) ← mbSlice data
-        pure d
-      else pure data)
-    let data ← (if flags / 128 % 2 = 1 then do
+        let (v, d) ← mbSlice data
+        pure (some v, d)
+      else pure (none, data))
+    let (us, data) ← (if flags / 128 % 2 = 1 then do
         if data.isEmpty then throw .invalidData
-        let (_, d) ← mbSlice data
-        pure d
-      else pure data)
+        let (v, d) ← mbSlice data
+        pure (some v, d)
+      else pure (none, data))
     let (fs, data) ← parseFilters nf data
     match fs.getLast? with
     | some (.lzma2 _) =>
@@ -171,7 +175,7 @@ def parseBlockHeader (inp : List Nat) : Except Err (Option BlockHeader × List N
       if pad.any (· ≠ 0) then throw .invalidData
       let crc := data.drop (data.length - 4)
       if ofLe crc ≠ crc32 (sz :: hd.take (hd.length - 4)) then throw .invalidData
-      pure (some { filters := fs, size := hsize }, inp)
+      pure (some { filters := fs, size := hsize, compSize := cs, uncompSize := us }, inp)
     | _ => throw .invalidInput
 
 /-! ## Block body -/
@@ -207,7 +211,13 @@ inductive BRes where
   | err (e : Err)
   | capped
 
-/-- one block after its header: LZMA2 payload, padding, check -/
+/-- `declared.is_some_and(|size| size != actual)` of `finish_block_record` -/
+def declaredMismatch : Option Nat → Nat → Bool
+  | none, _ => false
+  | some v, actual => v != actual
+
+/-- one block after its header: LZMA2 payload, padding, check, then (`finish_block_record`) the sizes declared
+    in the block header against the real ones -/
 def decodeBlockBody (chk : Check) (h : BlockHeader) (consumedBefore : Nat) (inp : List Nat) (cap : Nat) : BRes :=
   -- an LZMA2 filter anywhere but last would stack two LZMA2 decoders: outside the model
   if (h.filters.dropLast.any fun f => match f with | .lzma2 _ => true | _ => false) then .capped else
@@ -228,7 +238,16 @@ def decodeBlockBody (chk : Check) (h : BlockHeader) (consumedBefore : Nat) (inp 
       | .error e => .err e
       | .ok (stored, rest) =>
         if stored ≠ chk.compute data then .err .invalidData
+        -- `finish_block_record`: "block compressed size mismatch" / "block uncompressed size mismatch"
+        else if declaredMismatch h.compSize r.consumed then .err .invalidData
+        else if declaredMismatch h.uncompSize data.length then .err .invalidData
         else .ok { header := h, data, payload := inp.take r.consumed } rest
+
+/-- the `IndexRecord` that `finish_block_record` pushes for a decoded block: Unpadded Size = header size +
+    compressed data size + check size (`data_end - block_start + check_size`), and the uncompressed size.
+    (`payload` holds exactly the compressed data, so its length is the number of bytes the LZMA2 reader consumed.) -/
+def blockRecord (chk : Check) (b : Block) : Nat × Nat :=
+  (b.header.size + b.payload.length + chk.size, b.data.length)
 
 /-! ## Index -/
 
@@ -249,9 +268,9 @@ def parseRecords : Nat → Nat → List Nat → List (Nat × Nat) → Except Err
 
 def mb (v : Nat) : List Nat := (XzInt.encode v).getD []
 
-/-- `Index::parse` (the indicator byte has been consumed).  Padding length and CRC are computed
-from the *re-encoded* integers, exactly as the code does. -/
-def parseIndex (inp : List Nat) : Except Err (List (Nat × Nat) × List Nat) := do
+/-- `Index::parse` (the indicator byte has been consumed).  Padding length, CRC and the `size` field are
+computed from the *re-encoded* integers, exactly as the code does.  Returns (records, `Index::size`, rest). -/
+def parseIndex (inp : List Nat) : Except Err (List (Nat × Nat) × Nat × List Nat) := do
   let (n, inp1) ← mbReader inp
   let (recs, inp2) ← parseRecords (inp1.length + 1) n inp1 []
   let canon := mb n ++ (recs.map fun r => mb r.1 ++ mb r.2).flatten
@@ -261,7 +280,7 @@ def parseIndex (inp : List Nat) : Except Err (List (Nat × Nat) × List Nat) := 
   if pad.any (· ≠ 0) then throw .invalidData
   let (crc, inp4) ← takeN 4 inp3
   if ofLe crc ≠ crc32 (0 :: canon ++ pad) then throw .invalidData
-  pure (recs, inp4)
+  pure (recs, read + padN + 4, inp4)
 
 /-! ## Whole file -/
 
@@ -286,7 +305,8 @@ def nextStream : Nat → List Nat → Nat → Except Err (Option (Check × List 
         let (c, rest) ← parseFlags (inp.drop 6)
         pure (some (c, rest))
 
-/-- blocks of one stream, then index and footer -/
+/-- blocks of one stream, then index and footer (`parse_index_and_footer`).  `blks` are the blocks of the
+current stream, most recent first, so `(blks.map (blockRecord chk)).reverse` is `self.block_records`. -/
 def readBlocks (multi : Bool) (total : Nat) : Nat → Check → List Nat → List Nat → List Block → Nat → Out
   | 0, _, _, _, _, _ => .capped
   | fuel+1, chk, inp, acc, blks, cap =>
@@ -302,11 +322,15 @@ def readBlocks (multi : Bool) (total : Nat) : Nat → Check → List Nat → Lis
     | .ok (none, inp') =>
       match parseIndex inp' with
       | .error e => .err e
-      | .ok (recs, inp'') =>
+      | .ok (recs, isize, inp'') =>
         if recs.length ≠ blks.length then .err .invalidData else
+        -- "index records don't match the sizes of the blocks"
+        if recs ≠ (blks.map (blockRecord chk)).reverse then .err .invalidData else
         match parseFooter inp'' with
         | .error e => .err e
-        | .ok (_, flags, rest) =>
+        | .ok (bs, flags, rest) =>
+          -- "backward size doesn't match the size of the index"
+          if (bs + 1) * 4 ≠ isize then .err .invalidData else
           if flags ≠ [0, chk.toByte] then .err .invalidData else
           if ¬ multi then .ok acc (total - rest.length) blks else
           match nextStream (rest.length + 1) rest 0 with
